@@ -35,14 +35,21 @@ def explore(res, rng, n):
         # coefficient / observation vectors as lists, tuples or arrays ("1d array" in the documentation)
         kindc = i % 4
         conv = {0: list, 1: list, 2: (lambda v: np.array(v, dtype=float)), 3: (lambda v: np.array(v, dtype=np.int64))}[kindc]
+        conv_obs = None
+        if i % 8 == 5:
+            conv = list
+            conv_obs = (lambda v: np.array(v, dtype=np.int8))        # observations as int8 (values fit, the recurrence does not)
+            obs, obs2 = [100, 90][:p] + [80] * max(0, p - 2), ([100, 90, 80, 70][:nobs])
+            phis = [2, -1, 1, 1][:p]
+            res.stat('coefficients_as_int8_array')
         res.stat('coefficients_as_%s' % {0: 'list', 1: 'list', 2: 'float_array', 3: 'int_array'}[kindc])
         with mock.patch.object(np.random, 'normal', side_effect=lambda mu, sigma, size: list(eps[:size])), \
                 mock.patch.object(np.random, 'seed', side_effect=lambda s=None: None):
             outs = {}
             for k_, call_, args_ in (
-                    ('ar', lambda: lsg.arNormal(N, conv(obs), conv(phis), 0, 1), f'{N} {enc_list(obs)} {enc_list(phis)} {enc_list(eps)}'),
+                    ('ar', lambda: lsg.arNormal(N, (conv_obs or conv)(obs), conv(phis), 0, 1), f'{N} {enc_list(obs)} {enc_list(phis)} {enc_list(eps)}'),
                     ('ma', lambda: lsg.maNormal(N, c, conv(thetas), 0, 1), f'{N} {c} {enc_list(thetas)} {enc_list(eps)}'),
-                    ('arma', lambda: lsg.armaNormal(N, conv(obs2), conv(phis), conv(thetas), 0, 1),
+                    ('arma', lambda: lsg.armaNormal(N, (conv_obs or conv)(obs2), conv(phis), conv(thetas), 0, 1),
                      f'{N} {enc_list(obs2)} {enc_list(phis)} {enc_list(thetas)} {enc_list(eps)}'),
                     ('arima', lambda: lsg.arimaNormal(N, c, conv(phis), conv(thetas), 0, 1),
                      f'{N} {c} {enc_list(phis)} {enc_list(thetas)} {enc_list(eps)}')):
@@ -102,7 +109,7 @@ def explore(res, rng, n):
             'armaNormal': lambda N, mu, sg, sd: lsg.armaNormal(N, [1.0, 2.0], [0.5, -0.25], [0.4], mu, sg, randomSeed=sd),
             'arimaNormal': lambda N, mu, sg, sd: lsg.arimaNormal(N, 0.5, [0.5], [0.4], mu, sg, randomSeed=sd)}
     for gname, gf in sorted(gens.items()):
-        for sd in (0, 1, 2 ** 32 - 1, rng.randrange(1000)):
+        for sd in (0, 1, 2 ** 32 - 1, rng.randrange(1000), np.int64(7), np.uint8(3)):
             N, mu, sg = rng.choice([5, 12]), rng.choice([0.0, 1.5]), rng.choice([1.0, 2.0])
             calls = []
             real = np.random.normal
@@ -111,16 +118,16 @@ def explore(res, rng, n):
                 v = real(*a, **k)
                 calls.append((a, np.array(v, copy=True)))
                 return v
-            np.random.seed(4242 + sd % 7)
+            np.random.seed(4242 + int(sd) % 7)
             np.random.uniform(size=3)
             with mock.patch.object(np.random, 'normal', side_effect=spy2):
                 gf(N, mu, sg, sd)
             res.evaluations += 1
             res.stat('real_generator_' + gname)
-            np.random.seed(sd)
+            np.random.seed(int(sd))
             want_eps = np.random.normal(mu, sg, N)
             if len(calls) != 1 or not np.array_equal(calls[0][1], want_eps):
-                fail(res, 'noise is not normal(mu, sigma, numSteps) of the given seed', gname, {'N': N, 'seed': sd, 'mu': mu, 'sigma': sg}, None)
+                fail(res, 'noise is not normal(mu, sigma, numSteps) of the given seed', gname, {'N': N, 'seed': int(sd), 'seed_type': type(sd).__name__, 'mu': mu, 'sigma': sg}, None)
     # zero spread, non-zero noise mean: the deterministic recurrence with e_t = mu (through the model, integers)
     for gname in ('ar', 'ma', 'arma', 'arima'):
         for mu in (2, -3):
